@@ -424,7 +424,11 @@ class Executor(Engine):
         st2 = self.commit(st, ctx, results).fork()
         bt = self.cur.bag_ty
         x = coerce(v, bt.elem).t
-        st2.bag = z3.Store(st2.bag, x, z3.Select(st2.bag, x) + 1)
+        if isinstance(bt, TList):
+            # generator whose ORDER matters (contract `returns` is a List): the yielded values in order
+            st2.bag = bt.mk(z3.Store(bt.arr(st2.bag), bt.n(st2.bag), x), bt.n(st2.bag) + 1)
+        else:
+            st2.bag = z3.Store(st2.bag, x, z3.Select(st2.bag, x) + 1)
         return results + [(st2, None)]
 
     def do_yield_from(self, y, st):
@@ -432,6 +436,11 @@ class Executor(Engine):
         ctx = self.new_ctx(st, y.lineno)
         v = self.ev.ev(y.value, ctx)
         bt = self.cur.bag_ty
+        if isinstance(bt, TList) and isinstance(v.ty, TList):
+            new = self.ev.list_concat(V(bt, st.bag), v, ctx)
+            st2 = self.commit(st, ctx, results).fork()
+            st2.bag = coerce(new, bt).t if new.ty != bt else new.t
+            return results + [(st2, None)]
         if not isinstance(v.ty, TBag):
             raise OutOfSubset(f'yield from {v.ty}')
         new = self.bag_union(V(bt, st.bag), v, ctx)
@@ -1016,7 +1025,7 @@ class Executor(Engine):
                 self.notes.append(f'{qual}: loop {o_} header is now `{got}` (contract was written for `{text}`)')
         is_gen = any(isinstance(nd, (ast.Yield, ast.YieldFrom)) for nd in _preorder(fnode))
         rty = c.ty(c.returns)
-        c.bag_ty = rty if (is_gen and isinstance(rty, TBag)) else None
+        c.bag_ty = rty if (is_gen and isinstance(rty, (TBag, TList))) else None
         if is_gen and c.bag_ty is None:
             raise OutOfSubset(f'{qual} is a generator; contract `returns` must be Bag[..]')
         # parameters
@@ -1071,7 +1080,12 @@ class Executor(Engine):
         pc += self.ground_axioms()
         pc += self.inductive_axioms(c.d.get('uses_lemmas', ()))     # only the inductive lemmas the contract asks for
         c.pre_pc = list(pc)
-        st = State(env, pc, z3.K(c.bag_ty.elem.sort(), z3.IntVal(0)) if c.bag_ty else None, old)
+        bag0 = None
+        if isinstance(c.bag_ty, TBag):
+            bag0 = z3.K(c.bag_ty.elem.sort(), z3.IntVal(0))
+        elif isinstance(c.bag_ty, TList):
+            bag0 = c.bag_ty.mk(z3.K(z3.IntSort(), z3.Const('dflt!yield', c.bag_ty.elem.sort())), z3.IntVal(0))
+        st = State(env, pc, bag0, old)
         exits = self.exec_block(fnode.body, st)
         npaths = 0
         for st2, o in exits:
